@@ -303,6 +303,14 @@ class CFG:
                        may_raise=any(not isinstance(t, ast.Name) for t in s.targets))
         elif isinstance(s, ast.Pass):
             self._emit("nop", s)
+        elif isinstance(s, ast.Break) and getattr(s, "asl_inline_return", False):
+            # ``return`` of an inlined helper (asl.inline): leaves the inlined block, through
+            # any loops / finally blocks of the helper
+            self._pending_tag = "break"
+            self._emit("nop", s, note="inline-return")
+            fr = self._unwind("inline")
+            fr.breaks.extend(self._cur)
+            self._cur = []
         elif isinstance(s, ast.Break):
             self._pending_tag = "break"
             node = self._emit("nop", s, note="break")
@@ -355,6 +363,17 @@ class CFG:
 
     # ----------------------------------------------------------------- loops
     def _while(self, s: ast.While) -> None:
+        if getattr(s, "asl_once", False):
+            # the body of an inlined helper: a block that is left by its (inline-)returns
+            outer_ctx = self._ctx
+            fr = _Frame("inline", s, outer_ctx, len(self._frames))
+            self._frames.append(fr)
+            self._ctx = outer_ctx + (("inline", s),)
+            self._stmts(s.body)
+            self._frames.pop()
+            self._ctx = outer_ctx
+            self._cur = self._cur + fr.breaks
+            return
         head = self._emit("nop", s, note="loop-head")
         outer_ctx = self._ctx
         fr = _Frame("loop", s, outer_ctx, len(self._frames))
